@@ -269,10 +269,12 @@ def analyse(prop, model, lin, timeout_ms=4000):
             unknown.append("a")
         r, m = ex_forall(src, z3.And(linf, lin_obj == src_obj))
         if r == "sat":
-            # distinguish "not attained" from "already infeasible extension" (the latter is C01's business)
+            # a source-feasible point none of whose extensions attains the source objective: either the objective
+            # is wrong there or the point has no extension at all (then C01 fails too) - both change what the
+            # compiled model can attain, so both are reported here, told apart by the kind
             r2, _ = ex_forall(src, linf)
-            if r2 != "sat":
-                return "(violation objective-not-attained %s)" % json.dumps({k: v for k, v in m.items() if k in used_src})
+            kind = "objective-not-attained" if r2 != "sat" else "objective-not-attained-point-cut-off"
+            return "(violation %s %s)" % (kind, json.dumps({k: v for k, v in m.items() if k in used_src}))
         if r == "unknown":
             unknown.append("b")
     return "(ok%s)" % (" unknown-" + "".join(unknown) if unknown else "")
